@@ -2287,7 +2287,15 @@ func (r *Raft) isMember(id string) bool {
 // isSingleServerCluster returns true if the current configuration only contains
 // this node as a voting member.
 func (r *Raft) isSingleServerCluster() bool {
-	return len(r.configuration.Members) == 1 && r.configuration.IsVoter[r.id]
+	// Non-voting members do not take part in elections or commitment: a node is
+	// on its own if it is the only voting member, whatever else is in the cluster.
+	voters := 0
+	for _, isVoter := range r.configuration.IsVoter {
+		if isVoter {
+			voters++
+		}
+	}
+	return voters == 1 && r.configuration.IsVoter[r.id]
 }
 
 // pendingConfigurationChange returns true if the current configuration
